@@ -101,6 +101,7 @@ type GSchema struct {
 	SchemaBlock  bool
 	SchemaDirs   string
 	BadRoot      string // fault: schema block names a missing type
+	Extra        []string // raw chunks: extensions of built-in (prelude) types
 	Faults       []string
 	idx          map[string]*GType
 }
@@ -582,6 +583,20 @@ func GenSchema(r *Rng) *GSchema {
 			}
 		}
 	}
+	// now and then a schema extends types of the prelude itself
+	if r.Chance(1, 6) {
+		sc := map[string]bool{"name": true, "kind": true, "description": true}
+		switch r.Intn(4) {
+		case 0:
+			s.Extra = append(s.Extra, "extend type __Type {\n  "+nm.freshFrom(fieldNamePool, sc)+": String\n}\n")
+		case 1:
+			s.Extra = append(s.Extra, "extend enum __TypeKind {\n  OPAQUE\n}\n")
+		case 2:
+			s.Extra = append(s.Extra, "extend type __Field {\n  "+nm.freshFrom(fieldNamePool, sc)+": Int\n}\n")
+		case 3:
+			s.Extra = append(s.Extra, "extend type __Schema {\n  "+nm.freshFrom(fieldNamePool, sc)+": [String!]\n}\n")
+		}
+	}
 	// type-system directive uses (valid ones)
 	for _, d := range s.Dirs {
 		use := " @" + d.Name + renderDirArgs(r, s, d)
@@ -866,6 +881,7 @@ func (s *GSchema) Render(r *Rng) string {
 		x += "}\n"
 		chunks = append(chunks, x)
 	}
+	chunks = append(chunks, s.Extra...)
 	for i := len(chunks) - 1; i > 0; i-- {
 		j := r.Intn(i + 1)
 		chunks[i], chunks[j] = chunks[j], chunks[i]
